@@ -43,14 +43,14 @@ void h_perm(void)
   if (mode == 2) { __CPROVER_assume(n1 < BL && j < n1 && k <= n1); d2.features = duplicated(d1.features, j, k); }
   /* form: absent in both, or the same fields (distinct vars) */
   bool isnull = mode < 3 ? true : nondet_bool();
-  int nf = nondet_int(); __CPROVER_assume(0 <= nf && nf <= BL);
+  int nf = nondet_int(); __CPROVER_assume(0 <= nf && nf <= (mode == 3 ? BL : mode == 4 ? 2 : 1));
   QLst f1, f2; f1.n = nf; f2.n = nf;
   for (int i = 0; i < BL; i++) {
     f1.e[i] = i < nf ? i : 0;
     f2.e[i] = i < nf ? BL + i : 0;
     BField a; a.key = small(); a.kind = nondet_int(); a.s = small(); a.b = nondet_bool();
     int nv = nondet_int();
-    __CPROVER_assume(a.kind >= VK_INVALID && a.kind <= VK_BOOL && nv >= 0 && nv <= BL);
+    __CPROVER_assume(a.kind >= VK_INVALID && a.kind <= VK_BOOL && nv >= 0 && nv <= (mode == 4 && i == j ? BL : 1));
     for (int m = 0; m < BL; m++) __CPROVER_assume(m >= i || gb_field[m].key != a.key);       /* XEP-0004: vars are unique */
     a.list = fresh_list(nv);
     gb_field[i] = a;
